@@ -274,6 +274,76 @@ def tset(*items) -> frozenset:
 # --------------------------------------------------------------------------- program
 
 
+def desugar_match(tree: ast.AST) -> ast.AST:
+    """`match` statements whose patterns are values, singletons, wildcards, captures, class patterns without
+    sub-patterns and or-patterns of those are rewritten into the equivalent if / elif chain at load time, so that every
+    analysis sees one control-flow vocabulary. Other patterns (sequences, mappings, positional class patterns) are
+    left as they are and make the analyses that meet them fail closed."""
+
+    class T(ast.NodeTransformer):
+        n = 0
+
+        def test_of(self, pat, subj):
+            """(test expression, [statements binding captures]) or None"""
+            if isinstance(pat, ast.MatchValue):
+                return ast.Compare(left=subj, ops=[ast.Eq()], comparators=[pat.value]), []
+            if isinstance(pat, ast.MatchSingleton):
+                return ast.Compare(left=subj, ops=[ast.Is()], comparators=[ast.Constant(value=pat.value)]), []
+            if isinstance(pat, ast.MatchAs):
+                if pat.pattern is None:
+                    binds = [] if pat.name is None else [ast.Assign(targets=[ast.Name(id=pat.name, ctx=ast.Store())], value=subj)]
+                    return ast.Constant(value=True), binds
+                inner = self.test_of(pat.pattern, subj)
+                if inner is None:
+                    return None
+                t, b = inner
+                if pat.name is not None:
+                    b = b + [ast.Assign(targets=[ast.Name(id=pat.name, ctx=ast.Store())], value=subj)]
+                return t, b
+            if isinstance(pat, ast.MatchClass) and not pat.patterns and not pat.kwd_patterns:
+                return ast.Call(func=ast.Name(id="isinstance", ctx=ast.Load()), args=[subj, pat.cls], keywords=[]), []
+            if isinstance(pat, ast.MatchOr):
+                parts = [self.test_of(q, subj) for q in pat.patterns]
+                if any(q is None or q[1] for q in parts):
+                    return None
+                return ast.BoolOp(op=ast.Or(), values=[q[0] for q in parts]), []
+            return None
+
+        def visit_Match(self, node):
+            node = self.generic_visit(node)
+            subj = node.subject
+            pre = []
+            if not isinstance(subj, (ast.Name, ast.Attribute, ast.Constant)):
+                T.n += 1
+                tmp = f"_match_subject{T.n}"
+                pre = [ast.Assign(targets=[ast.Name(id=tmp, ctx=ast.Store())], value=subj)]
+                subj = ast.Name(id=tmp, ctx=ast.Load())
+            arms = []
+            for case in node.cases:
+                r = self.test_of(case.pattern, subj)
+                if r is None:
+                    return node
+                t, binds = r
+                if case.guard is not None:
+                    if binds:
+                        return node  # a guard that may read a capture: not expressible as a plain test here
+                    t = case.guard if (isinstance(t, ast.Constant) and t.value is True) else ast.BoolOp(op=ast.And(), values=[t, case.guard])
+                arms.append((t, binds + list(case.body)))
+            chain: list = []
+            for t, body in reversed(arms):
+                if isinstance(t, ast.Constant) and t.value is True:
+                    chain = body
+                else:
+                    chain = [ast.If(test=t, body=body, orelse=chain)]
+            out = pre + (chain or [ast.Pass()])
+            for st in out:
+                ast.copy_location(st, node)
+                ast.fix_missing_locations(st)
+            return out
+
+    return T().visit(tree)
+
+
 class Program:
     def __init__(self, root: str) -> None:
         self.root = os.path.abspath(root)
@@ -307,6 +377,8 @@ class Program:
                     tree = ast.parse(src, filename=path)
                 except SyntaxError as err:
                     raise AnalysisError(f"cannot parse {rel}: {err}") from err
+                if "match " in src:
+                    tree = desugar_match(tree)
                 mod = Module(name, path, os.path.relpath(path, self.root), tree, src)
                 self.modules[name] = mod
         for mod in self.modules.values():
